@@ -28,6 +28,13 @@ impl Tier {
     }
 }
 
+/// signatures listed as known findings for the property being checked (set once by main);
+/// explorations stop early on a violation only if its signature is NOT one of these
+pub static KNOWN_SIGS: std::sync::OnceLock<std::collections::HashSet<String>> = std::sync::OnceLock::new();
+pub fn is_new_signature(sig: &str) -> bool {
+    KNOWN_SIGS.get().map(|k| !k.contains(sig)).unwrap_or(true)
+}
+
 pub struct Known {
     /// (property, signature) -> description
     pub findings: BTreeMap<(String, String), String>,
